@@ -418,6 +418,7 @@ func (db *DB) appendLogRecord(logRecord *datafile.LogRecord) (*datafile.DataPos,
 		}
 	}
 
+	sizeBefore := db.activeFile.Size()
 	pos, err := db.activeFile.WriteLogRecord(logRecord, db.logRecordHeader)
 	if err != nil {
 		return nil, err
@@ -432,6 +433,11 @@ func (db *DB) appendLogRecord(logRecord *datafile.LogRecord) (*datafile.DataPos,
 	if syncStrategy == Always || (syncStrategy == Threshold && db.bytesWrite >= db.options.BytesPerSync) {
 		// 执行持久化操作
 		if err := db.activeFile.Sync(); err != nil {
+			// 调用方会认为本次写入未发生 (索引也不会更新): 撤销已追加的记录, 否则重启后该记录仍会生效
+			if db.activeFile.Truncate(sizeBefore) == nil {
+				db.totalSize -= int64(pos.Size)
+				db.bytesWrite -= uint(pos.Size)
+			}
 			return nil, err
 		}
 		// 清空累计值
